@@ -323,7 +323,7 @@ func c17e2e(c *wk.Ctx) {
 func c17migrate(c *wk.Ctx, idx int, r *rand.Rand, configured bool, inflight int) {
 	dc := 2 + r.Intn(4)
 	migrateCode := []int32{303, 303, 400, 420, 500, 406}[r.Intn(6)]
-	var migrated sync.Map // uid -> true once refused by dc1
+	var migrated sync.Map  // uid -> true once refused by dc1
 	var toMigrate sync.Map // uids dc1 refuses
 	var e *rpcEnv
 	var srv2 *refserver.Server
